@@ -556,6 +556,18 @@ def all_to_index_loop(s, rewrites=None):
         s = s[:m.start()] + new + s[cb + 1 + tail.end():]
 
 
+def difference_collect_to_env(s, rewrites=None):
+    """D19 (set difference form): `A.difference(&B).cloned().collect::<HashSet<T>>()` over two local HashSets becomes
+    `set_difference(&A, &B)`, an environment function with HashSet::difference's meaning (the elements of A that are not in B)."""
+    rx = re.compile(r'\b(\w+)\s*\.difference\(&(\w+)\)\s*\.cloned\(\)\s*\.collect::<\s*HashSet<[^>]*>\s*>\(\)')
+
+    def rep(m):
+        if rewrites is not None:
+            rewrites.append('D19 difference of %s and %s collected' % (m.group(1), m.group(2)))
+        return 'set_difference(&%s, &%s)' % (m.group(1), m.group(2))
+    return rx.sub(rep, s)
+
+
 def position_to_loop(s, rewrites=None):
     """D17: the expression `E.iter().position(|x| PRED)` over a Vec/VecDeque place E (PRED an expression) becomes the search
     loop it stands for, as a block expression:
